@@ -39,12 +39,25 @@ def _observe(job):
         mixed = np.asarray(m.cumulative_distribution(mixed_in.copy()), dtype=float)[2:-2]
         zeros_first = np.vstack([np.array([[0.0, 0.0]]), sub])
         zf = np.asarray(m.cumulative_distribution(zeros_first.copy()), dtype=float)[1:]
+        # rows with positive coordinates so small that powers of them overflow (1e-300, the smallest denormal) next to ordinary rows
+        tiny_in = np.vstack([np.array([[1e-300, 0.4], [0.6, 5e-324]]), sub, np.array([[1e-200, 1e-250], [3e-39, 0.9]])])
+        tiny = np.asarray(m.cumulative_distribution(tiny_in.copy()), dtype=float)[2:-2]
+        # a work buffer: the same array object evaluated, overwritten in place and evaluated again
+        idx2 = rs.choice(n * n, size=len(idx), replace=False)
+        buf = sub.copy()
+        m.cumulative_distribution(buf)
+        buf[:, :] = X[idx2]
+        wb = np.asarray(m.cumulative_distribution(buf), dtype=float)
+    for j, i in enumerate(idx2):
+        rowwise.append({'a': int(big[i]), 'b': int(O.fx(wb)[j])})
+    with np.errstate(all='ignore'):
+        pass
     with np.errstate(all='ignore'):
         wide = np.zeros((len(sub), 5))
         wide[:, 1], wide[:, 3] = sub[:, 0], sub[:, 1]
         strided = np.asarray(m.cumulative_distribution(wide[:, 1::2]), dtype=float)              # a strided view
         fortran = np.asarray(m.cumulative_distribution(np.asfortranarray(sub.copy())), dtype=float)   # column-major memory
-    for arr in (rev, mixed, zf, strided, fortran):
+    for arr in (rev, mixed, zf, tiny, strided, fortran):
         f = O.fx(arr)
         for j, i in enumerate(idx):
             rowwise.append({'a': int(big[i]), 'b': int(f[j])})
